@@ -202,7 +202,7 @@ def handle_msg_keeps_the_view_readable(n, kind):
     log = {}
     for v in vs:
         log[v] = FakeEntry(v, "fault")
-    fl = new_object(F.FaultLog, _map=m, _log=log, _MAX_LOG_IDX=MAXI, _is_current=True)
+    fl = new_object(F.FaultLog, _map=m, _log=log, _MAX_LOG_IDX=MAXI, _is_current=True, _is_getting=sym_bool("is_getting"), _log_done=None)
     idx = sym_int("idx", 0, MAXI)
     dtm = sym_int("dtm", 1, 10 ** 6)
     assume(truthful(ks, vs, ps, idx, dtm))
